@@ -1342,22 +1342,9 @@ func filterImage(
 ) (bufimage.Image, error) {
 	newImage := image
 	var err error
-	if functionOptions.imageExcludeImports {
-		newImage = bufimage.ImageWithoutImports(newImage)
-	}
-	includeTypes := functionOptions.imageIncludeTypes
-	excludeTypes := functionOptions.imageExcludeTypes
-	if len(includeTypes) > 0 || len(excludeTypes) > 0 {
-		newImage, err = bufimageutil.FilterImage(
-			newImage,
-			bufimageutil.WithIncludeTypes(includeTypes...),
-			bufimageutil.WithExcludeTypes(excludeTypes...),
-			bufimageutil.WithMutateInPlace(),
-		)
-		if err != nil {
-			return nil, err
-		}
-	}
+	// Paths are filtered first, as they are when an image is built from a workspace:
+	// the path filter adds the imports of the targeted files back, so the imports
+	// must be excluded after it, not before.
 	if !imageCameFromAWorkspace {
 		if len(functionOptions.targetPaths) > 0 || len(functionOptions.targetExcludePaths) > 0 {
 			// bufimage expects normalized paths, so we need to normalize the paths
@@ -1379,6 +1366,22 @@ func filterImage(
 			if err != nil {
 				return nil, err
 			}
+		}
+	}
+	if functionOptions.imageExcludeImports {
+		newImage = bufimage.ImageWithoutImports(newImage)
+	}
+	includeTypes := functionOptions.imageIncludeTypes
+	excludeTypes := functionOptions.imageExcludeTypes
+	if len(includeTypes) > 0 || len(excludeTypes) > 0 {
+		newImage, err = bufimageutil.FilterImage(
+			newImage,
+			bufimageutil.WithIncludeTypes(includeTypes...),
+			bufimageutil.WithExcludeTypes(excludeTypes...),
+			bufimageutil.WithMutateInPlace(),
+		)
+		if err != nil {
+			return nil, err
 		}
 	}
 	return newImage, nil
